@@ -29,7 +29,10 @@ def roots(b, operand, depth=0):
         elif o.kind == "agg" and depth < 6:
             # a closure literal (the upgrade / downgrade closure): what it captures
             st = b.blocks[o.site[0]]["s"][o.site[1]]
-            if st["r"].get("ak") in ("closure", "tuple"):
+            d_ = st["r"].get("def") or ""
+            local_struct = st["r"].get("ak") == "adt" and d_ and d_.split("::")[0] not in ("core", "alloc", "std", "futures_channel", "futures_util", "futures_core") and d_ not in HANDLE_ADTS and not st["r"].get("variant", d_.split("::")[-1]) != d_.split("::")[-1]
+            # a closure literal, a tuple, or a crate-local plain struct standing in for a closure (`WeakParts { .. }`)
+            if st["r"].get("ak") in ("closure", "tuple") or local_struct:
                 for a in st["r"]["ops"]:
                     out |= roots(b, a, depth + 1)
             else:
@@ -109,6 +112,7 @@ def check_cfg(ctx, fx, cfg):
     # R15.2 handle-building sites
     import loops
     births = {"call:" + f["parent"] for f, _k in loops.find_loops(fx)}  # create_loop / create_loop_on_stream hand out the address created at birth
+    births |= {"call:" + h for h in loops.pair_helpers(fx)}  # helpers that hand that pair on unchanged
     # ... and so do the crate's spawn entry points (they return the address of the loop they spawned)
     import nfa as _nfa
     for g, _bi, _t in graph.all_calls(fx, _nfa.trait_method("actor::spawner::Spawner", "spawn_actor")):
